@@ -252,6 +252,11 @@ def directed_texts():
             D.append(("rv", tmpl % lit, ["hostile-literal"]))
         for tmpl in ("LDA %s", ".data\nv: .word %s\n.text\nLDA v", ".data\nv: .word 1, %s"):
             D.append(("toy", tmpl % lit, ["hostile-literal"]))
+    # programs that fit EXACTLY (every slot of the instruction memory / every word of the TOY memory is used) must load
+    D.append(("rv", "\n".join(["nop"] * 4096), ["must-load"]))
+    D.append(("rv", "\n".join(["li x1, 100000"] * 2048), ["must-load"]))
+    D.append(("toy", "\n".join(["NOP"] * 4096), ["must-load"]))
+    D.append(("toy", ".data\nv: .word " + ", ".join(["1"] * 4000) + "\n.text\n" + "\n".join(["INC"] * 96), ["must-load"]))
     # programs that do not fit
     D.append(("rv", "\n".join(["nop"] * 4097), ["too-long"]))
     D.append(("rv", "\n".join(["li x1, 100000"] * 2049), ["too-long"]))
@@ -423,7 +428,11 @@ def _run_unimpl(case, res, mode):
 
 def run_case(prop, case, res):
     if case["kind"] == "text":
-        classify_load(case["sim"], case["text"], res, case, case.get("faults"))
+        out = classify_load(case["sim"], case["text"], res, case, case.get("faults"))
+        if "must-load" in (case.get("faults") or []):
+            res.count("exactly_fitting_programs")
+            if out != "ok" and not str(out).startswith(("ESCAPE", "watchdog")):
+                res.violation("C15", "fitting-program-rejected", "a %s program that fits the simulated memory exactly (%d lines) was rejected with %s: the size / address error is for programs that do NOT fit" % (case["sim"], len(case["text"].splitlines()), out), case)
     elif case["kind"] == "unimpl":
         run_unimpl_case(case, res)
     else:
